@@ -755,4 +755,213 @@ theorem sqlWrite_eq_spec (ceq : TupleRec → TupleRec → Bool) (cfg : SqlCfg) (
     List.filter_congr (fun t ht => by rw [hkept t ht])
   rw [hf1, effDel_reqOrder]
 
+
+/-! ### invariants of a store along any write history (used by C15) -/
+
+/-- the rows `pushAll` appends: numbered from `n` on -/
+def mkChanges (n : Nat) (now : Nat) : List (TupleRec × Op) → List Change
+  | [] => []
+  | it :: rest => { tuple := it.1, op := it.2, ulid := n, ts := now } :: mkChanges (n + 1) now rest
+
+theorem pushAll_eq (now : Nat) : ∀ (items : List (TupleRec × Op)) (ch : List Change),
+    pushAll ch items now = ch ++ mkChanges ch.length now items := by
+  intro items
+  induction items with
+  | nil => intro ch; simp [pushAll, mkChanges]
+  | cons it rest ih =>
+    intro ch
+    rw [pushAll_cons, ih]
+    simp [pushChange, mkChanges]
+
+theorem mkChanges_append (now : Nat) : ∀ (a b : List (TupleRec × Op)) (n : Nat),
+    mkChanges n now (a ++ b) = mkChanges n now a ++ mkChanges (n + a.length) now b := by
+  intro a
+  induction a with
+  | nil => intro b n; simp [mkChanges]
+  | cons x xs ih =>
+    intro b n
+    simp only [List.cons_append, mkChanges, ih, List.length_cons]
+    rw [Nat.add_assoc, Nat.add_comm 1]
+
+theorem mkChanges_length (now : Nat) : ∀ (a : List (TupleRec × Op)) (n : Nat), (mkChanges n now a).length = a.length := by
+  intro a
+  induction a with
+  | nil => intro n; rfl
+  | cons x xs ih => intro n; simp [mkChanges, ih]
+
+theorem mkChanges_ulids (now : Nat) : ∀ (a : List (TupleRec × Op)) (n : Nat),
+    (mkChanges n now a).map (·.ulid) = List.range' n a.length := by
+  intro a
+  induction a with
+  | nil => intro n; rfl
+  | cons x xs ih => intro n; simp [mkChanges, ih, List.range'_succ]
+
+theorem mkChanges_ts (now : Nat) : ∀ (a : List (TupleRec × Op)) (n : Nat), ∀ c ∈ mkChanges n now a, c.ts = now := by
+  intro a
+  induction a with
+  | nil => intro n c hc; simp [mkChanges] at hc
+  | cons x xs ih =>
+    intro n c hc
+    simp only [mkChanges, List.mem_cons] at hc
+    rcases hc with rfl | hc
+    · rfl
+    · exact ih _ c hc
+
+theorem replay_append : ∀ (a b : List Change) (ts : List TupleRec), replay ts (a ++ b) = replay (replay ts a) b := by
+  intro a
+  induction a with
+  | nil => intro b ts; rfl
+  | cons c cs ih =>
+    intro b ts
+    simp only [List.cons_append, replay]
+    cases c.op <;> simp [ih]
+
+theorem redact_key (t : TupleRec) : t.redact.key = t.key := rfl
+
+theorem replay_deletes (now : Nat) : ∀ (D : List TupleRec) (n : Nat) (ts : List TupleRec),
+    replay ts (mkChanges n now (D.map (fun t => (t.redact, Op.delete))))
+      = ts.filter (fun t => !(D.map (·.key)).contains t.key) := by
+  intro D
+  induction D with
+  | nil =>
+    intro n ts
+    have hft : ts.filter (fun _ => true) = ts := List.filter_eq_self.mpr (fun _ _ => rfl)
+    simp [mkChanges, replay, hft]
+  | cons d ds ih =>
+    intro n ts
+    simp only [List.map_cons, mkChanges, replay, ih, List.filter_filter, redact_key]
+    apply List.filter_congr
+    intro t _
+    by_cases h : t.key = d.key <;> simp [List.contains_cons, h]
+
+theorem replay_writes (now : Nat) : ∀ (W : List TupleRec) (n : Nat) (ts : List TupleRec),
+    replay ts (mkChanges n now (W.map (fun w => (normCond w, Op.write)))) = ts ++ W.map normCond := by
+  intro W
+  induction W with
+  | nil => intro n ts; simp [mkChanges, replay]
+  | cons w ws ih =>
+    intro n ts
+    simp [mkChanges, replay, ih]
+
+/-- the spec's effective deletes, in either order -/
+def effDelOf (reqOrder : Bool) (s : StoreState) (dels : List TupleKey) : List TupleRec :=
+  if reqOrder then dels.filterMap (fun k => stored s k) else s.tuples.filter (fun t => dels.contains t.key)
+
+def effWOf (s : StoreState) (writes : List TupleRec) : List TupleRec :=
+  writes.filter (fun w => (stored s w.key).isNone)
+
+/-- the state a successful write leaves (second half of `specWrite`) -/
+def specState (reqOrder : Bool) (norm : TupleRec → TupleRec) (s : StoreState) (dels : List TupleKey) (writes : List TupleRec)
+    (now : Nat) : StoreState :=
+  { tuples := s.tuples.filter (fun t => !dels.contains t.key) ++ (effWOf s writes).map norm,
+    changes := pushAll s.changes ((effDelOf reqOrder s dels).map (fun t => (t.redact, Op.delete))
+                                   ++ (effWOf s writes).map (fun w => (normCond w, Op.write))) now }
+
+theorem specWrite_ok_form {ceq : TupleRec → TupleRec → Bool} {reqOrder : Bool} {norm : TupleRec → TupleRec} {s s' : StoreState}
+    {dels : List TupleKey} {writes : List TupleRec} {o : WriteOpts} {now : Nat}
+    (h : specWrite ceq reqOrder norm s dels writes o now = .ok s') : s' = specState reqOrder norm s dels writes now := by
+  unfold specWrite at h
+  split at h
+  · cases h
+  · split at h
+    · cases h
+    · split at h
+      · cases h
+      · injection h with h
+        rw [← h]
+        rfl
+
+theorem effDel_keys (reqOrder : Bool) (s : StoreState) (dels : List TupleKey) {t : TupleRec} (ht : t ∈ s.tuples) :
+    ((effDelOf reqOrder s dels).map (·.key)).contains t.key = dels.contains t.key := by
+  rw [Bool.eq_iff_iff, List.contains_iff_mem, List.contains_iff_mem, List.mem_map]
+  unfold effDelOf
+  cases reqOrder with
+  | true =>
+    simp only [if_true, List.mem_filterMap]
+    constructor
+    · rintro ⟨t', ⟨k, hk, hst⟩, hkey⟩
+      have := (stored_some_key hst).2
+      rw [← hkey, this]; exact hk
+    · intro hk
+      have hs : (stored s t.key).isSome = true := by
+        rw [stored_isSome_iff, List.any_eq_true]; exact ⟨t, ht, by simp⟩
+      cases hst : stored s t.key with
+      | none => simp [hst] at hs
+      | some t' => exact ⟨t', ⟨t.key, hk, hst⟩, (stored_some_key hst).2⟩
+  | false =>
+    simp only [Bool.false_eq_true, if_false, List.mem_filter, List.contains_iff_mem]
+    constructor
+    · rintro ⟨t', ⟨_, hk⟩, hkey⟩; rw [← hkey]; exact hk
+    · intro hk; exact ⟨t, ⟨ht, hk⟩, rfl⟩
+
+theorem normCond_idem (t : TupleRec) : normCond (normCond t) = normCond t := by
+  cases t with
+  | mk a b c d n x =>
+    unfold normCond
+    by_cases h : n = ""
+    · simp [h]
+    · cases x <;> simp [h]
+
+theorem ranks_push (ch : List Change) (items : List (TupleRec × Op)) (now : Nat)
+    (h : ch.map (·.ulid) = List.range ch.length) :
+    (pushAll ch items now).map (·.ulid) = List.range (pushAll ch items now).length := by
+  rw [pushAll_eq]
+  simp only [List.map_append, List.length_append, mkChanges_length, mkChanges_ulids, h]
+  have := @List.range'_append 0 ch.length items.length 1
+  simp only [Nat.one_mul, Nat.zero_add] at this
+  rw [List.range_eq_range', List.range_eq_range', ← this]
+
+/-- what holds of a store after any sequence of writes -/
+structure Inv (s : StoreState) : Prop where
+  /-- no key is stored twice -/
+  nodup : (s.tuples.map (·.key)).Nodup
+  /-- replaying the changelog, oldest first, onto the empty store yields exactly what `Read` shows -/
+  replays : replay [] s.changes = s.tuples.map normCond
+  /-- the ULID rank of a change is its position in the log -/
+  ranks : s.changes.map (·.ulid) = List.range s.changes.length
+
+theorem inv_empty : Inv {} := ⟨by simp, by simp [replay], by simp⟩
+
+theorem specState_inv (reqOrder : Bool) (norm : TupleRec → TupleRec)
+    (hnk : ∀ t, (norm t).key = t.key) (hnn : ∀ t, normCond (norm t) = normCond t)
+    (s : StoreState) (dels : List TupleKey) (writes : List TupleRec) (now : Nat)
+    (hw : (writes.map (·.key)).Nodup) (hi : Inv s) : Inv (specState reqOrder norm s dels writes now) := by
+  obtain ⟨hnd, hrep, hrk⟩ := hi
+  refine ⟨?_, ?_, ?_⟩
+  · -- keys stay unique
+    simp only [specState, List.map_append, List.map_map]
+    rw [List.nodup_append]
+    refine ⟨List.Nodup.sublist (List.Sublist.map _ List.filter_sublist) hnd, ?_, ?_⟩
+    · have : (effWOf s writes).map ((fun x => x.key) ∘ norm) = (effWOf s writes).map (·.key) :=
+        List.map_congr_left (fun a _ => hnk a)
+      rw [this]
+      exact List.Nodup.sublist (List.Sublist.map _ List.filter_sublist) hw
+    · intro a ha b hb hab
+      obtain ⟨t, ht, rfl⟩ := List.mem_map.mp ha
+      obtain ⟨w, hw', rfl⟩ := List.mem_map.mp hb
+      simp only [Function.comp, hnk] at hab
+      have hw2 := (List.mem_filter.mp hw').2
+      have ht' := (List.mem_filter.mp ht).1
+      have : (stored s w.key).isSome = true := by
+        rw [stored_isSome_iff, List.any_eq_true]; exact ⟨t, ht', by simp [hab]⟩
+      cases h : stored s w.key <;> simp [h] at this hw2
+  · -- replay
+    simp only [specState]
+    rw [pushAll_eq, replay_append, hrep, mkChanges_append, replay_append, replay_deletes, replay_writes]
+    rw [List.map_append, List.map_map]
+    congr 1
+    · rw [List.filter_map]
+      congr 1
+      apply List.filter_congr
+      intro t ht
+      simp only [Function.comp, normCond_key]
+      rw [effDel_keys reqOrder s dels ht]
+    · apply List.map_congr_left
+      intro a _
+      simp [Function.comp, hnn]
+  · -- ranks
+    simp only [specState]
+    exact ranks_push _ _ _ hrk
+
+
 end OpenFGAVerif.Proofs.StoreWrite
